@@ -1,6 +1,7 @@
 package vsim
 
 import (
+	"context"
 	"fmt"
 	"time"
 
@@ -192,6 +193,36 @@ func famRelay(w *World) {
 	if faulty {
 		w.planLinkFaults(2)
 	}
+	if faulty && scnChance(1, 3) {
+		// the relay application itself closes (gracefully) connections to destinations while
+		// calls keep arriving: a call may select a connection that stops being active before it
+		// is reserved (the relay then rejects the call: declined, End once, nothing left behind)
+		rn := t.relays[len(t.relays)-1]
+		k := 1 + scn(3)
+		var at []time.Duration
+		for i := 0; i < k; i++ {
+			at = append(at, time.Duration(scn(30))*w.Grid)
+		}
+		fs = append(fs, func() {
+			for _, d := range at {
+				sleep(d)
+				for _, sv := range t.servers {
+					if p, ok := rn.Ch.RootPeers().Get(sv.HostPort); ok {
+						if in, out := p.NumConnections(); in+out > 0 {
+							ctx, cancel := context.WithTimeout(context.Background(), time.Second)
+							c, err := p.GetConnection(ctx)
+							cancel()
+							if err == nil {
+								w.event("op", "%s closes its connection to %s", rn.Name, sv.Name)
+								w.Net.Fired["app.conn-close"]++
+								c.Close()
+							}
+						}
+					}
+				}
+			}
+		})
+	}
 	w.tasks(fs...)
 	// C08 differential: what the destination handler observed
 	for _, p := range pairs {
@@ -210,6 +241,35 @@ func (w *World) quiesceRelay(t *relayTopo, maxTimeout time.Duration) {
 	w.settle(maxTimeout + 30*time.Second)
 	for _, spy := range t.spies {
 		spy.checkEnded()
+	}
+	w.event("quiesce", "relay settle over")
+	w.checkQuiescent()
+	// "...so both connections can complete a graceful close": nothing is in flight any more;
+	// the relays are closed FIRST, while their neighbours keep their sockets open, and must
+	// get all the way to closed on their own
+	for _, rn := range t.relays {
+		if !rn.Dead {
+			rn.Close()
+		}
+	}
+	for _, rn := range t.relays {
+		if rn.Dead {
+			continue
+		}
+		ok := false
+		for waited := time.Duration(0); waited < 2*time.Minute; waited += 50 * time.Millisecond {
+			if rn.sampleState() == tchannel.ChannelClosed {
+				ok = true
+				break
+			}
+			sleep(50 * time.Millisecond)
+		}
+		w.eval("C09.relay-closes-gracefully")
+		if !ok {
+			d := fmt.Sprintf("relay %s is still %v two minutes after Close although every call ended long ago and its neighbours are alive (connections: %s): a connection still counts a relayed call as pending", rn.Name, rn.sampleState(), rn.connSummary())
+			w.violate("C09", "relay-cannot-close", "%s", d)
+			w.violate("C07", "never-closed", "%s", d)
+		}
 	}
 	w.quiesce(time.Second, true)
 }
